@@ -1693,7 +1693,12 @@ def _extend_children(children, item, get_handler):
     try:  # dict or obj-like
         keys = get_handler('keys', item)
         get = get_handler('get', item)
+        if keys is _ObjStyleKeys.get_keys and isinstance(item, (list, tuple, set, frozenset)):
+            # an instance of a list / tuple / set subclass has a __dict__ too: its children are its items
+            keys = None
     except UnregisteredTarget:
+        keys = None
+    if keys is None:
         try:
             iterate = get_handler('iterate', item)
         except UnregisteredTarget:
